@@ -15,6 +15,7 @@ import (
 	"time"
 
 	"github.com/zilliztech/milvus-cdc/core/log"
+	cdcreader "github.com/zilliztech/milvus-cdc/core/reader"
 	"github.com/zilliztech/milvus-cdc/core/verifkit/ev"
 	"github.com/zilliztech/milvus-cdc/core/verifkit/sched"
 )
@@ -100,6 +101,7 @@ func TestVerifC18Concurrent(t *testing.T) {
 	defer res.Write()
 	log.Info("warm up the logger outside the bubble")
 	sched.StartWatchdog(90 * time.Second)
+	cdcreader.VerifReleaseOutsidePools()
 	bound := 2
 	if ev.Thorough() {
 		bound = 4
